@@ -439,3 +439,63 @@ def enumerate_deviations(cls, base, k, sub_states=("MIN",)):
                         yield (b, a), fa(fb(base))
                     else:
                         yield (a, b), fb(fa(base))
+
+
+def min_with(cls, c, value=None):
+    """smallest valid term of cls that contains child c (element / sub-aggregate: present; repeated kind: one member),
+    honouring groups and the hand-written validate_args rules of the hint table"""
+    n = cls.__name__
+    name, kw, members = MIN(cls)
+    chs = S.children(cls)
+    cm = {x.name: x for x in chs}
+    opt, req = S.declared_groups(cls)
+    if c.kind in ("elem", "sub"):
+        val = value if value is not None else (default_value(c) if c.kind == "elem" else MIN(c.target))
+        kw2 = dict(kw)
+        for g in list(opt) + list(req):
+            if c.name in g:
+                for m in g:
+                    if m != c.name:
+                        kw2.pop(m, None)
+        kw2[c.name] = val
+        if n == "OFX":
+            suffix = c.name[-4:]
+            kw2 = {k: v for k, v in kw2.items() if k.endswith(suffix)}
+            son = "signonmsgsrqv1" if suffix == "rqv1" else "signonmsgsrsv1"
+            kw2.setdefault(son, MIN(cm[son].target))
+        if n == "CONTRIBSECURITY" and c.name != "secid":
+            kw2 = {k: v for k, v in kw2.items() if k == "secid" or k.endswith(c.name[-3:])}
+        if n == "SONRQ" and c.name == "userkey":
+            kw2.pop("userid", None)
+            kw2.pop("userpass", None)
+        if n == "TAX1099R_V100" and c.name in ("grossdist", "taxamt", "fedtaxwh"):
+            kw2["irasepsimp"] = True
+        if n == "EXTDPAYEE" and c.name == "payeeid":
+            kw2["idscope"] = "GLOBAL"
+            kw2["name"] = "a"
+        return (name, {x.name: kw2[x.name] for x in chs if x.name in kw2}, list(members))
+    mem = value if value is not None else member_default(c, 0)
+    members2 = list(members)
+    same = [i for i, m in enumerate(members2) if (S._isterm(m) and S._isterm(mem) and m[0] == mem[0]) or (not S._isterm(m) and not S._isterm(mem))]
+    if same:
+        members2[same[0]] = mem
+    else:
+        members2.append(mem)
+    if n == "ACCTINFO":
+        members2 = [mem]
+    return (name, kw, members2)
+
+
+def MAXL(cls):
+    """MAXS with two distinguishable members of the last and of the first declared repeated kind, in that order (a valid
+    instance: repeated children may come in any order among themselves).  None for classes without repeated kinds."""
+    name, kw, members = MAXS(cls)
+    lk = [c for c in S.children(cls) if c.kind in ("lagg", "lelem")]
+    if not lk:
+        return None
+    n = 1 if hint(cls).get("one_per_kind") else 2
+    mem = []
+    kinds = [lk[-1]] + ([lk[0]] if len(lk) > 1 else [])  # last declared kind first, then the first declared kind
+    for c in kinds:
+        mem += [member_default(c, i) for i in range(n)]
+    return (name, kw, mem)
